@@ -426,6 +426,11 @@ class SCTPParser(HeaderParser):
         ])
         
         remainer: Buffer = buffer[96:]
+        # the announced gap ack blocks (4 bytes each) and duplicate TSNs (4 bytes each) must fill the rest of the chunk
+        announced_blocks: int = number_gap_ack_blocks.value() + number_duplicate_tsns.value()
+        if remainer.length != 32 * announced_blocks:
+            raise ParserError(buffer=buffer, message=f'{remainer.length} bits left for {announced_blocks} announced gap ack blocks and duplicate TSNs')
+
         # Gap ack Blocks
         number_gap_ack_blocks_value: int = number_gap_ack_blocks.value()
         
@@ -447,9 +452,6 @@ class SCTPParser(HeaderParser):
             ])
             remainer = remainer[32:]
         
-        if remainer.length > 0:
-            raise ParserError(buffer=buffer, message=f'{remainer.length} bits left after the announced gap ack blocks and duplicate TSNs')
-
         return fields
     
     def _parse_chunk_heartbeat(self, buffer: Buffer) -> List[FieldDescriptor]:
